@@ -218,3 +218,46 @@ func VH_C14_HugeChunk() {
 	got2, err := b.Recv()
 	vAssert(err == nil && vBytesEq(got2, next), "the following message did not arrive as a message of its own")
 }
+
+// VH_C14_ZeroTimeout: polling with a receive timeout that has already expired
+// when Recv starts (SetRecvTimeout(0) or a negative value - what a read
+// deadline in the past turns into) while a complete message is queued. Such a
+// Recv may return the message or a timeout (both the data and the expired
+// timer are ready; the run explores either choice at every select within the
+// deviation budget). Whatever the polls returned, the messages come out one
+// by one, complete and in order.
+func VH_C14_ZeroTimeout() {
+	l := vIntRange("len", 1, 2)
+	_, b, ch := vPipe(1)
+	msgs := [2][]byte{vBytes("m0", l), vBytes("m1", 1)}
+	go func() {
+		for _, m := range msgs {
+			for i := range m {
+				ch <- &PacketData{Payload: m[i : i+1], FinalChunk: i == len(m)-1}
+			}
+		}
+	}()
+	time.Sleep(time.Millisecond) // everything is queued (as far as the buffer goes)
+	b.SetRecvTimeout(-time.Duration(vIntRange("neg_ms", 0, 1)) * time.Millisecond)
+	var out [][]byte
+	for polls := 0; polls < 3 && len(out) < 2; polls++ {
+		m, err := b.Recv()
+		if err != nil {
+			vAssert(err == errRecvTimeout, "Recv failed with something else than a timeout")
+			continue
+		}
+		out = append(out, m)
+	}
+	b.SetRecvTimeout(time.Hour)
+	for len(out) < 2 {
+		m, err := b.Recv()
+		vAssert(err == nil, "Recv failed although data is queued and the timeout is an hour")
+		if err != nil {
+			return
+		}
+		out = append(out, m)
+	}
+	vReach("zero-timeout")
+	vAssert(vBytesEq(out[0], msgs[0]), "first message altered, merged or split by polling with an expired timeout")
+	vAssert(vBytesEq(out[1], msgs[1]), "second message altered, merged or split by polling with an expired timeout")
+}
